@@ -55,6 +55,9 @@ pub enum Op {
     /// boundary values planted in every (or sampled) 32-bit word, both byte orders
     PlantAll { sample_seed: u64 },
     FlipSample { seed: u64, n: u32 },
+    /// two header words at once (a size word and a count, say): all pairs of the first eight
+    /// words x a small value set, both byte orders
+    PlantPairsHeader,
     Sector { kind: u8, pos: u64, fill: u64 },
     Splice { cut_a: u64, cut_b: u64 },
     Append { #[serde(with = "hexser")] tail: Vec<u8> },
@@ -515,6 +518,30 @@ fn exec(ctx: &mut RunCtx, w: &mut World, op: &Op) -> Step<()> {
             ctx.outcome("plant_all", "ok", "");
             Ok(())
         }
+        Op::PlantPairsHeader => {
+            let b = w.cur.clone();
+            let words = (b.len() / 4).min(8);
+            let l = b.len() as u32;
+            let vals = [0u32, 0x20, l.wrapping_add(0x40), 0x0040_0000, 0x7FFF_FFFF, 0xFFFF_FFF0];
+            for i in 0..words {
+                for j in (i + 1)..words {
+                    for vi in &vals {
+                        for vj in &vals {
+                            for big in [false, true] {
+                                let mut c = b.clone();
+                                let (bi, bj) = if big { (vi.to_be_bytes(), vj.to_be_bytes()) } else { (vi.to_le_bytes(), vj.to_le_bytes()) };
+                                c[i * 4..i * 4 + 4].copy_from_slice(&bi);
+                                c[j * 4..j * 4 + 4].copy_from_slice(&bj);
+                                all_readers(ctx, w, &c, 0)?;
+                            }
+                        }
+                    }
+                }
+            }
+            ctx.fault("word_pair_plant");
+            ctx.outcome("plant_pairs_header", "ok", "");
+            Ok(())
+        }
         Op::FlipSample { seed, n } => {
             let b = w.cur.clone();
             if b.is_empty() {
@@ -644,6 +671,7 @@ fn run(cfg: &Value, ctx: &mut RunCtx) -> Step<()> {
             planned.push(Op::ZeroFault);
             planned.push(Op::TruncAll);
             planned.push(Op::PlantAll { sample_seed: r.next() });
+            planned.push(Op::PlantPairsHeader);
             planned.push(Op::FlipSample { seed: r.next(), n: 256 });
             for _ in 0..r.range(1, 4) {
                 planned.push(Op::Sector { kind: r.below(3) as u8, pos: r.next(), fill: r.next() });
